@@ -4,14 +4,50 @@ layout21raw ShapeTrait::contains (Rect, Polygon, Path, and through the Shape enu
 
 One case = one shape + many query points; the Coq checker returns the maximum code over the
 queries (+10 when its own decidable `simpleb` says the polygon is simple, which cross-checks the
-generator's simplicity test). Set VERIF_C13_ORIG=1 to compare polygons against the model of the
-code as it stood BEFORE the repair (`poly_contains_orig`) instead of the repaired one."""
+generator's simplicity test).
+
+Which model of Polygon::contains the impl is compared with follows the SOURCE, re-read on every run
+(`model_variant`): the body as found (`let xsolve = ... / ...`) -> `poly_contains_orig` (op 4); the body after
+work/c13/fix-polygon-contains.patch (i128 cross product, half-open rule) -> `poly_contains` (op 2); anything
+else -> the tie is reported broken. VERIF_C13_ORIG=1 / VERIF_C13_ORIG=0 override (experiments only)."""
 import itertools, json, math, os, re
 from vlib import *
 
 OPS = {"rect": 1, "poly": 2, "path": 3}
-ORIG = os.environ.get("VERIF_C13_ORIG", "") == "1"
-POLY_OP = 4 if ORIG else 2
+ORIG = False
+POLY_OP = 2
+VARIANT_PROBLEMS = []
+
+def model_variant():
+    """True = the tree has Polygon::contains as found, False = the repaired form; None = neither recognised."""
+    e = os.environ.get("VERIF_C13_ORIG", "")
+    if e in ("0", "1"):
+        return e == "1"
+    try:
+        src = open(os.path.join(REPO, "layout21raw/src/geom.rs"), encoding="utf8").read()
+    except OSError as ex:
+        VARIANT_PROBLEMS.append("cannot read layout21raw/src/geom.rs: %s" % ex)
+        return None
+    i = src.find("impl ShapeTrait for Polygon")
+    j = src.find("impl ShapeTrait for Path", i)
+    if i < 0 or j < 0:
+        VARIANT_PROBLEMS.append("impl ShapeTrait for Polygon not found in layout21raw/src/geom.rs")
+        return None
+    body = re.sub(r"//[^\n]*", "", src[i:j])
+    body = re.sub(r"\s+", "", body)
+    found = ("letxsolve=(next.x-past.x)*(pt.y-past.y)/(next.y-past.y)+past.x;" in body
+             and "ifxsolve==pt.x{returntrue;}elseifxsolve>pt.x{ifnext.y>past.y{winding_num+=1;}else{winding_num-=1;}}" in body)
+    fixed = ("letcross=(next.xasi128-past.xasi128)*(pt.yasi128-past.yasi128)-(pt.xasi128-past.xasi128)*(next.yasi128-past.yasi128);" in body
+             and "ifcross==0{returntrue;}ifnext.y>past.y{ifpt.y<next.y&&cross>0{winding_num+=1;}}elseifpt.y<past.y&&cross<0{winding_num-=1;}" in body)
+    common = ("if!self.points.bbox().contains(pt){returnfalse;}" in body
+              and "ifpast.y.min(next.y)<=pt.y&&past.y.max(next.y)>=pt.y{ifnext.y==past.y{ifpast.x.min(next.x)<=pt.x&&past.x.max(next.x)>=pt.x{returntrue;}}else{" in body
+              and body.count("winding_num!=0") == 1)
+    if common and found and not fixed:
+        return True
+    if common and fixed and not found:
+        return False
+    VARIANT_PROBLEMS.append("Polygon::contains in layout21raw/src/geom.rs is neither the body as found nor the repaired body the models stand for")
+    return None
 
 # ------------------------------------------------------------------ exact integer geometry (generator side)
 def cross(a, b, q):
@@ -501,6 +537,12 @@ def case_bbox(c):
     return (min(xs) - h, max(xs) + h, min(ys) - h, max(ys) + h)
 
 def run(chk, replay=None):
+    global ORIG, POLY_OP
+    v = model_variant()
+    ORIG = bool(v)
+    POLY_OP = 4 if ORIG else 2
+    for pr in VARIANT_PROBLEMS:
+        chk.broken.append("tie C13: " + pr + " (compared with the repaired model)")
     chk.proof_leg(["Geom/ContainsCheck.vo"], "Properties/C13.v", ["Geom/Contains_proofs.v"], "Properties.C13")
     chk.assumptions += [
         "isize is 64 bits; arithmetic overflow is modelled as a distinct outcome (Ovf) and the theorems exclude it by |coordinate| < 2^30 (and width < 2^30 for paths)",
